@@ -149,7 +149,7 @@ Section OpsOk.
     - destruct (bget (dhex d) (rs r)); [|split; [exact H | discriminate]].
       destruct (gguf_parts size_of (layer_from_layer size_of) r d parts) as [r1 [ls|]] eqn:E;
         destruct (gguf_parts_ok t s0 d parts r H) as [Ha Hb]; rewrite E in Ha, Hb; cbn in Ha, Hb.
-      + destruct fail; [split; [exact Ha | discriminate]|].
+      + destruct (fail || match parts with [] => true | _ => false end); [split; [exact Ha | discriminate]|].
         destruct (add_detected size_of r1 ls det) as [r2 ls'] eqn:E2.
         destruct (add_detected_ok t s0 det r1 ls Ha (Hb ls eq_refl)) as [Hc Hd]. rewrite E2 in Hc, Hd. cbn in *.
         split; [exact Hc|]. intros x [= <-]. exact Hd.
